@@ -350,20 +350,36 @@ func (n *WorkflowNode) checkAndAddMappedPath(paths []FieldPath) error {
 	}
 
 	for _, targetPath := range paths {
-		m := n.mappedFieldPath[""].(map[string]any)
+		m, ok := n.mappedFieldPath[""].(map[string]any)
+		if !ok {
+			return fmt.Errorf("entire output has already been mapped for node: %s", n.key)
+		}
+		if len(targetPath) == 0 { // maps to the entire input: conflicts with every other mapping
+			if len(m) > 0 {
+				return fmt.Errorf("entire output mapping conflicts with field paths already mapped for node: %s", n.key)
+			}
+			n.mappedFieldPath[""] = struct{}{}
+			continue
+		}
 		var traversed FieldPath
 		for i, path := range targetPath {
 			traversed = append(traversed, path)
-			if v, ok := m[path]; ok {
+			v, exist := m[path]
+			if exist {
 				if _, ok = v.(struct{}); ok {
 					return fmt.Errorf("two terminal field paths conflict for node %s: %v, %v", n.key, traversed, targetPath)
 				}
 			}
 
 			if i < len(targetPath)-1 {
-				m[path] = make(map[string]any)
+				if !exist {
+					m[path] = make(map[string]any)
+				}
 				m = m[path].(map[string]any)
 			} else {
+				if exist { // a longer path through this one has been mapped before
+					return fmt.Errorf("two terminal field paths conflict for node %s: %v is a prefix of a mapped path", n.key, targetPath)
+				}
 				m[path] = struct{}{}
 			}
 		}
